@@ -135,10 +135,28 @@ func encodeKV(m map[string]tengo.Object, seen map[tengo.Object]bool, depth int) 
 // ErrHost is the Go error returned by the host function "hostfail".
 var ErrHost = fmt.Errorf("host function failed")
 
+// hostErrMode selects the shape of the error "hostfail" returns: "" the plain sentinel; "wrapnum" / "wraptype" an error
+// of the host's own type whose chain contains ErrHost *and* one of the engine's argument errors (a host function
+// that delegates to another callable).  In every shape the error the embedder gets back must still be ErrHost.
+var hostErrMode string
+
+type hostWrapErr struct{ inner error }
+
+func (e *hostWrapErr) Error() string   { return ErrHost.Error() + ": " + e.inner.Error() }
+func (e *hostWrapErr) Unwrap() []error { return []error{ErrHost, e.inner} }
+
 func hostFunction(name string) tengo.Object {
 	switch name {
 	case "hostfail":
-		return &tengo.UserFunction{Name: name, Value: func(args ...tengo.Object) (tengo.Object, error) { return nil, ErrHost }}
+		return &tengo.UserFunction{Name: name, Value: func(args ...tengo.Object) (tengo.Object, error) {
+			switch hostErrMode {
+			case "wrapnum":
+				return nil, &hostWrapErr{tengo.ErrWrongNumArguments}
+			case "wraptype":
+				return nil, &hostWrapErr{tengo.ErrInvalidArgumentType{Name: "first", Expected: "int", Found: "string"}}
+			}
+			return nil, ErrHost
+		}}
 	case "hostpanic":
 		return &tengo.UserFunction{Name: name, Value: func(args ...tengo.Object) (tengo.Object, error) { panic("host function panicked") }}
 	}
